@@ -772,6 +772,13 @@ func (c *SpecCtx) call(n *Node) SV {
 		}
 		ts = append(ts, c.cur.H("G$dyn"))
 		return SV{T: app(dynFnName(e, sig, 0), ts...), Sort: e.sortOf(sig.Results().At(0).Type()), Ty: sig.Results().At(0).Type()}
+	case "exited":
+		// exited(N): loop N of this function ran to completion (left through its header, not by break or return)
+		if len(n.Args) != 1 || n.Args[0].Kind != "int" {
+			fail("spec: exited(N) takes a loop ordinal")
+		}
+		k, _ := strconv.Atoi(n.Args[0].Name)
+		return boolSV(c.cur.H(e.exitedHeap(k)))
 	case "dyncalls":
 		// dyncalls(): have calls through function values happened since entry (epoch changed)
 		e.heap("G$dyn", "Int")
